@@ -40,8 +40,8 @@ PROPS = {
                 rule="a run = 3 var_opt sketches (k 1..100, resize factors) fed unique items with uniform/exponential/heavy-tailed/increasing/decreasing/one-giant weights, unions of 2-3 sketches in scheduler order through var_opt_union (lvalue/rvalue, serialized and restored), restores, resets, refused weights; the library's draws come from the simulator (10% of runs replace one draw by an extreme); n, sample count, membership, heavy items exact, weight conservation, subset sums after every step; distinct = distinct plan hash"),
     "C17": dict(level="exploration", units=[("addagg", "c17", 16, 40000, 1000000)],
                 rule="a run = 3 t-digests (double/float, k 10..200) fed sorted/reversed/random/clustered/constant/duplicate-heavy/dyadic streams and NaN, merged, restored with and without buffer, with reader steps (rank/quantile grids, CDF/PMF, centroid count) whose placement changes the compress points; exact value list per digest; distinct = distinct plan hash"),
-    "C18": dict(level="exploration", units=[("addagg", "c18", 16, 6000, 150000)],
-                rule="a run = 3 ebpps sketches (k 1..32, one with 2k+1) fed unique weighted items, merged in both directions (lvalue/rvalue), restored, reset; draws owned by the simulator (10% of runs replace one draw by an extreme); n, cumulative weight, c = min(k, W/wmax), result size floor/ceil of c, membership after every step; distinct = distinct plan hash"),
+    "C18": dict(level="exploration", units=[("addagg", "c18", 12, 6000, 150000), ("addagg", "c18s", 4, 48, 600)],
+                rule="a run = 3 ebpps sketches (k 1..32, one with 2k+1) fed unique weighted items, merged in both directions (lvalue/rvalue), restored, reset; draws owned by the simulator (10% of runs replace one draw by an extreme); n, cumulative weight, c = min(k, W/wmax), result size floor/ceil of c, membership after every step; world c18s: per run one small weighted stream replayed under 20000 (thorough 40000) draw sequences owned by the simulator, inclusion frequency of every item within the 1e-13 Bernstein bound of w_i*min(1/wmax, k/W); distinct = distinct plan hash"),
     "C20": dict(level="exploration", units=[("addagg", "c20", 16, 10000, 250000)],
                 rule="a run = 3 density sketches (float/double, Gaussian or a harness kernel, k 2..16, dim 1..4) fed points, merged by reference and by move, restored, with wrong-dimension updates/merges; coin bit source seeded or adversarial; n, iterator weights 2^level, membership, retained bound, estimation-mode flag, exact kernel mean before the first compaction after every step; distinct = distinct plan hash"),
     "C15": dict(level="exploration", units=[("shm", "c15", 16, 24000, 600000)],
@@ -93,8 +93,8 @@ def build(targets):
     # keep the three most recent build directories only (disk is limited)
     dirs = sorted([d for d in glob.glob(os.path.join(ROOT, "build", "*")) if os.path.isdir(d) and len(os.path.basename(d)) == 16], key=os.path.getmtime)
     os.utime(bdir, None)
-    for d in dirs[:-3]:
-        if d != bdir:
+    for d in dirs[:-6]:      # a directory touched within the last 3 hours may belong to a check that is still running
+        if d != bdir and time.time() - os.path.getmtime(d) > 3 * 3600:
             shutil.rmtree(d, ignore_errors=True)
     return bdir
 
